@@ -158,7 +158,9 @@ def parse_field_values_to_cinfo(field_values: FieldValues) -> version.V2Calendar
     # Use of defaults is an all or nothing affair.
     # We don't to mix anything from TODAY with stuff
     # that was actually parsed from a string.
-    if not any((date, year_y, year_g, month, dom, doy, week_w, week_u, week_v)):
+    # NOTE: week number 0 is a value, not the absence of one
+    cal_values = (date, year_y, year_g, month, dom, doy, week_w, week_u, week_v)
+    if all(val is None for val in cal_values):
         date = version.TODAY
 
     # derive all fields from other previous values
